@@ -14,10 +14,15 @@ MODEL_PARS = ("tau", "eta", "kappa", "delta", "phi", "T")
 ODD_NET_NAMES = ("A1", "I-80 east/2", "A13_(north)", "_spare", "ring__2", "", " ", "1", "net 3", "Zürich Nord", "F", "__", "a_#_b")
 
 
-def candidate_params(desc, pars):
-    """All (element id | '#', attribute) keys that may be made symbolic."""
+def candidate_params(desc, pars, geometry=False):
+    """All (element id | '#', attribute) keys that may be made symbolic.  geometry: also the segment length and (where no lane-drop
+    term compares lane counts) the number of lanes - a corridor template compiled once and re-used across sites."""
     c = []
     for l in desc["links"]:
+        if geometry:
+            c.append((l["id"], "L"))
+            if pars.get("phi") is None:
+                c.append((l["id"], "lam"))
         for a in ("rho_crit", "v_free", "a", "rho_max"):
             c.append((l["id"], a))
         if l.get("vsl"):
@@ -33,10 +38,12 @@ def candidate_params(desc, pars):
 
 class CompileCase:
     def __init__(self, M, rng: random.Random, desc, pars, symtype, sym_keys=(), opts=None, ops=None,
-                 own_symbols=True, extra_params=None, prestep=None, fixed_from=None, fixed_prob=0.0, stacked=False, reuse=None, named_scalars_prob=0.0, scaled_prob=0.0, restep_T=None, param_override=None):
+                 own_symbols=True, extra_params=None, prestep=None, fixed_from=None, fixed_prob=0.0, stacked=False, reuse=None, named_scalars_prob=0.0, scaled_prob=0.0, restep_T=None, param_override=None, engine_factory=None):
         import casadi as cs
 
         NE, CE = drive.engines(M)
+        if engine_factory is not None:  # a user-defined engine class (called with the symbol type)
+            CE = engine_factory
         self.M, self.desc, self.pars, self.symtype = M, desc, pars, symtype
         self.opts = dict(opts or {})
         self.XX = getattr(cs, symtype)
@@ -237,7 +244,23 @@ class CompileCase:
         level = compact
         if D.FORMS["rng"] is not None and D.FORMS["rng"].random() < 0.3:
             level = D.FORMS["rng"].choice({0: (0, -1, -4), 1: (1,), 2: (2, 3, 7)}[min(max(compact, 0), 2)])
-        vals = {"net": self.built.net, "compact": level, "more_out": more_out, "parameters": (self.parameters or None)}
+        pmap = self.parameters or None
+        if pmap and D.FORMS["rng"] is not None and D.FORMS["rng"].random() < 0.25:
+            # the declared parameters held in another kind of mapping (link and model parameters chained, a read-only view, ...)
+            import collections
+            import types
+
+            items = list(pmap.items())
+            cut = D.FORMS["rng"].randint(0, len(items))
+            pmap = D.FORMS["rng"].choice((
+                # (a ChainMap lists the keys of its LAST map first: the declared order is the mapping's own iteration order)
+                lambda: collections.ChainMap(dict(items[cut:]), dict(items[:cut])) if 0 < cut < len(items) else collections.ChainMap(dict(items)),
+                lambda: types.MappingProxyType(dict(items)),
+                lambda: collections.UserDict(dict(items)),
+                lambda: collections.OrderedDict(items)))()
+            D.FORM_STATS["to_function: parameters held in " + type(pmap).__name__] = D.FORM_STATS.get("to_function: parameters held in " + type(pmap).__name__, 0) + 1
+        assert pmap is None or list(pmap) == list(self.parameters)
+        vals = {"net": self.built.net, "compact": level, "more_out": more_out, "parameters": pmap}
         return D.callform(self.compile_engine.to_function, D.ORDER["to_function"], vals, 1, extra=other)
 
     def effective(self, vals):
@@ -256,6 +279,22 @@ class CompileCase:
         return C.call_positional(F, self.desc, self.order, self.effective(vals), compact, more_out,
                                  params=({k: pv[k] for k in self.parameters} if self.parameters else None),
                                  fixed=set(self.fixed), scaled=(self.scaled or None), tied=set(self.tied))
+
+
+def call_by_name(case, F, vals, more_out, pvalues=None):
+    """Level 0 evaluated BY NAME (`F(rho_L1=..., rho_crit=..., a=...)` / `F.call({...})`): every value is handed over under the
+    documented name of the variable / the declared name of the parameter it belongs to.  None where the names are not
+    unique or are not the function's (user-named symbols)."""
+    pv = case.pvalues if pvalues is None else pvalues
+    params = ({k: pv[k] for k in case.parameters} if case.parameters else None)
+    args, _names, groups, byname = C.build_args(case.desc, case.order, case.effective(vals), 0, params, set(case.fixed), (case.scaled or None), set(case.tied))
+    elname = {e["id"]: e["name"] for grp in ("links", "origins", "dests") for e in case.desc[grp]}
+    documented = [f"{name}_{elname[eid]}" for grp in ("states", "actions", "disturbances") for eid, name, _v in groups[grp]] + list(params or {})
+    if len(set(documented)) != len(documented) or len(documented) != len(args) or set(documented) != set(F.name_in()) or len(set(F.name_out())) != F.n_out():
+        return None
+    out = F.call(dict(zip(documented, args)))
+    outs = [np.asarray(out[n_], dtype=float).ravel().tolist() for n_ in F.name_out()]
+    return C.decode_outputs(outs, case.desc, case.order, groups, byname, 0, more_out)
 
 
 def numpy_twin_next(M, desc, vals, pars, opts=None, ops=None, scalar_shape="vec1", int_dtype=False, param_override=None):
